@@ -5,6 +5,7 @@ and compares position and reads with the reference list obtained by plain steppi
 fresh matcher (which is itself cross-checked against the independent model of C01 here:
 ids of the reference list == model's matching documents for model-decidable queries).
 """
+import random
 LEVEL = "exploration"
 RULE = ("case = (generated corpus history -> real index, generated query incl. span/nested queries, matcher obtained at "
         "top level or per segment, scored or boolean context, needs_current on/off) x 3 generated programs over "
@@ -98,6 +99,15 @@ def one_query(ctx, rng, built, s, witness_base, mode="c11", q=None, expected=Non
     else:
         subs = s
     cx = s.context(needs_current=needs_current) if scored else s.context(needs_current=needs_current, weighting=None)
+    orng = random.Random("ctx-weighting:%r" % rng.random())
+    override = None
+    if scored and orng.random() < 0.2:
+        # the weighting model is a per-search option (Searcher.search(..)/context(weighting=)): a matcher built for a
+        # context whose model differs from the searcher's own must score AND bound with the context's model
+        from vf.props.c12 import gen_weighting
+        override, wobj2 = gen_weighting(orng)
+        cx = s.context(needs_current=needs_current, weighting=wobj2)
+        ctx.count(P + ".context_weighting_override")
 
     def make():
         if direct is not None:
@@ -106,6 +116,8 @@ def one_query(ctx, rng, built, s, witness_base, mode="c11", q=None, expected=Non
             return ArrayUnionMatcher(ms, subs.doc_count_all(), boost=direct[1], scored=scored, partsize=direct[2])
         return q.matcher(subs, cx)
     w = dict(witness_base, query=repr(q), scored=scored, needs_current=needs_current, level=level)
+    if override:
+        w["context_weighting"] = override
     if direct is not None:
         w["direct"] = "ArrayUnionMatcher(partsize=%d, boost=%s)" % (direct[2], direct[1])
     # A negation has no posting value/spans of its own (InverseMatcher delegates value()/spans() to the
